@@ -258,6 +258,7 @@ func (e *Env) objVal(obj types.Object) (SVal, bool) {
 // findLocal finds the local variable (Alloc) with the given source name; inside a loop clause
 // a variable assigned in that loop is preferred. name#k picks the k-th declaration.
 func (fe *FnEnc) findLocal(name string, l *Loop) *ssa.Alloc {
+	name = fe.renameName(name)
 	want := 0
 	if i := strings.Index(name, "#"); i >= 0 {
 		fmt.Sscanf(name[i+1:], "%d", &want)
